@@ -193,6 +193,32 @@ TAIL_OPS = [
     ("contract-record-contract", "R | {a | Number}", True),
     ("array-of-record-fields", "[R.a]", False),
 ]
+NESTED_FAMILIES = [
+    ("nested-all-fields", "forall s. {a : Number; s} -> {a : Number; s}"),
+    ("nested-no-field", "forall s. { ; s} -> { ; s}"),
+]
+# parametric round trips through nested / higher-rank row-polymorphic contracts: must evaluate to the value
+ROUNDTRIPS = [
+    ("row-roundtrip", "let f | forall r. {a : Number; r} -> {a : Number; r} = fun x => x in f {a = 1, b = 2}"),
+    ("row-roundtrip-nested-all-fields",
+     "let inner | forall s. {a : Number; s} -> {a : Number; s} = fun z => z in "
+     "let f | forall r. {a : Number; r} -> {a : Number; r} = fun x => inner x in f {a = 1, b = 2}"),
+    ("row-roundtrip-nested-no-field",
+     "let inner | forall s. { ; s} -> { ; s} = fun z => z in "
+     "let f | forall r. {a : Number; r} -> {a : Number; r} = fun x => inner x in f {a = 1, b = 2}"),
+    ("row-roundtrip-nested-twice",
+     "let inner | forall s. {a : Number; s} -> {a : Number; s} = fun z => z in "
+     "let f | forall r. {a : Number; r} -> {a : Number; r} = fun x => inner (inner x) in f {a = 1, b = 2}"),
+    ("row-roundtrip-higher-rank",
+     "let f | forall r. (forall s. {a : Number; s} -> {a : Number; s}) -> {a : Number; r} -> {a : Number; r} "
+     "= fun g x => g x in f (fun z => z) {a = 1, b = 2}"),
+    ("row-roundtrip-nested-empty-outer-tail",
+     "let inner | forall s. {a : Number; s} -> {a : Number; s} = fun z => z in "
+     "let f | forall r. {a : Number; r} -> {a : Number; r} = fun x => inner x in f {a = 1}"),
+    ("row-roundtrip-project-then-rebuild",
+     "let inner | forall s. {a : Number; s} -> {a : Number; s} = fun z => z in "
+     "let f | forall r. {a : Number, c : Number; r} -> {a : Number; r} = fun x => inner (%record/remove% \"c\" x) in f {a = 1, c = 3, b = 2}"),
+]
 TAILS = ["{a = 1, b = 2}", "{a = 1, b = 3, c = 4}"]
 NO_TAIL = "{a = 1}"
 
@@ -341,6 +367,17 @@ def programs(repo):
         tail_t = "let f | forall r. {a : Number; r} -> Dyn = fun R => (%s) in f %s"
         srcs = [tail_t % (body, t) for t in TAILS] + [tail_t % (body, NO_TAIL)]
         progs.append({"table": "tail", "name": name, "pos": 1 if must else 0, "src": srcs})
+    # the same operations on a record whose sealed tail has been sealed a second time inside the tail of
+    # ANOTHER row-polymorphic contract and given back (nested sealing): the inner contract lists all
+    # the visible fields (so its own tail holds nothing but the outer sealed tail), or none of them
+    for fam, inner_ty in NESTED_FAMILIES:
+        for name, body, must in TAIL_OPS:
+            tail_t = ("let inner | " + inner_ty + " = fun z => z in "
+                      "let f | forall r. {a : Number; r} -> Dyn = fun R0 => let R = inner R0 in (%s) in f %s")
+            srcs = [tail_t % (body, t) for t in TAILS] + [tail_t % (body, NO_TAIL)]
+            progs.append({"table": "tail", "name": fam + ":" + name, "pos": 1 if must else 0, "src": srcs})
+    for name, src in ROUNDTRIPS:
+        progs.append({"table": "allowed", "name": name, "pos": 0, "src": [src]})
     return progs, problems
 
 
